@@ -6,6 +6,7 @@ mod c10;
 mod c16;
 mod corpus;
 mod entropy;
+mod gen;
 mod model;
 mod observe;
 mod refmodel;
@@ -85,6 +86,31 @@ fn main() {
                 }
             }
         }
+        Some("dump-hex") => {
+            // debugging aid: print a registry given as hex SCALE bytes in a file
+            let text = std::fs::read_to_string(args.get(1).cloned().unwrap_or_else(|| usage())).unwrap();
+            let reg = corpus::decode_hex(text.trim()).unwrap();
+            for t in &reg.types {
+                println!(
+                    "{:3} {:40} params={:?} def={}",
+                    t.id,
+                    t.ty.path.segments.join("::"),
+                    t.ty.type_params.iter().map(|p| (p.name.clone(), p.ty.map(|x| x.id))).collect::<Vec<_>>(),
+                    format!("{:?}", t.ty.type_def).chars().take(400).collect::<String>()
+                );
+            }
+            0
+        }
+        Some("gen-selftest") => match gen::selftest() {
+            Ok(()) => {
+                println!("registry generator agrees with scale-info on the mirrored definitions");
+                0
+            }
+            Err(e) => {
+                eprintln!("HARNESS ERROR: {e}");
+                2
+            }
+        },
         Some("gen") => {
             // debugging aid: print the module generated for a corpus entry under standard settings
             let name = args.get(1).cloned().unwrap_or_else(|| usage());
